@@ -116,7 +116,7 @@ def run_C02(ctx):
     rng = ctx.rng
     progs = [G.gen_labware_program(rng, {"p_fail_each": 0.3, "nops": (2, 14)}) for _ in range(ctx.n(150))]
     stateful(ctx, res, "labware", corpus_progs(ctx, "labware") + progs, ["limits"], stop_on_error=False)
-    progs = [G.gen_worklist_program(rng, {"p_fail": 0.6, "kinds": ["transfer"] * 3 + ["aspirate", "dispense", "distribute", "add", "remove"]})
+    progs = [G.gen_worklist_program(rng, {"p_fail": 0.6, "kinds": ["transfer"] * 3 + ["aspirate", "dispense", "distribute", "add", "remove"], "p_dist_alias": 0.3, "p_trough": 0.45})
              for _ in range(ctx.n(150))]
     stateful(ctx, res, "worklist", corpus_progs(ctx, "worklist") + progs, ["limits"], stop_on_error=False)
     progs = [gen_evo_program(rng, p_fail=0.3) for _ in range(ctx.n(60))]
@@ -208,6 +208,12 @@ def run_C03(ctx):
     rng = ctx.rng
     progs = corpus_progs(ctx) + [G.gen_worklist_program(rng, {"p_fail": 0.75, "nops": (0, 5)}) for _ in range(ctx.n(260))]
     stateful(ctx, res, "worklist-failing", progs, ["replay_safe"])
+    # distributions into several virtual rows of one trough column (one real well): each dispense alone may fit while
+    # their sum overflows; whatever is refused must not be in the worklist (EVO numbers the virtual rows separately)
+    prof = {"p_fail": 0.8, "nops": (0, 3), "kinds": ["distribute", "distribute", "transfer"], "fail_kinds": ["distribute"], "p_dist_alias": 0.7,
+            "p_trough": 0.7, "devices": ["evo"]}
+    progs = [G.gen_worklist_program(rng, prof) for _ in range(ctx.n(80))]
+    stateful(ctx, res, "distribute-aliased-failing", progs, ["replay_safe"])
     progs = [gen_evo_program(rng, p_fail=0.6, fail_kinds=["toolarge", "toolarge", "limit", "order", "grid", "lc"]) for _ in range(ctx.n(150))]
     stateful(ctx, res, "evo-failing", progs, ["evo_step"])
     return res
@@ -263,7 +269,7 @@ def run_C07(ctx):
 def run_C11(ctx):
     res = Result()
     rng = ctx.rng
-    prof = {"p_fail": 0.05, "nops": (2, 10), "kinds": ["transfer"] * 4 + ["aspirate", "dispense", "distribute", "add", "remove", "misc"]}
+    prof = {"p_fail": 0.05, "nops": (2, 10), "kinds": ["transfer"] * 4 + ["aspirate", "dispense", "distribute", "add", "remove", "misc"], "p_dist_alias": 0.2}
     progs = corpus_progs(ctx) + [G.gen_worklist_program(rng, prof) for _ in range(ctx.n(220))]
     stateful(ctx, res, "history", progs, ["history"])
     # a refused operation in the middle of a script that goes on: earlier history entries must stay what they were
@@ -279,7 +285,7 @@ def run_C16(ctx):
     and EVO vs Fluent directly."""
     res = Result()
     rng = ctx.rng
-    prof = {"p_fail": 0.3, "nops": (1, 6), "p_trough": 0.5}
+    prof = {"p_fail": 0.3, "nops": (1, 6), "p_trough": 0.5, "p_dist_alias": 0.35}
     base = corpus_progs(ctx) + [G.gen_worklist_program(rng, prof) for _ in range(ctx.n(110))]
     progs = []
     for p in base:
@@ -695,9 +701,11 @@ register("C04", run_C04, module="Robotools.Props.C04",
          theorems=["Robotools.C04." + t for t in ("micro_shape", "executed_prefix", "executed_all_of_ok", "exec_ledger", "exec_frame",
                    "compileRemove_shape", "compileAdd_shape", "compileAdd_rejects_shape", "compileRemove_rejects_shape", "scalar_broadcast",
                    "flattenF_mat_get", "flattenF_mat_length", "flattenF_pairs", "trough_alias", "plate_index", "repeat_charged")], rule="direct add/remove histories over plates and troughs with scalar/list/2-D arguments and repeats")
-register("C05", run_C05, module="Robotools.Props.C05",
+register("C05", run_C05, module="Robotools.Props.C05History",
          theorems=["Robotools.C05." + t for t in ("combine_zero", "combine_spec", "wellComp_spec", "addStep_amount", "addStep_compValid",
-                   "removeStep_frac", "removeStep_amount", "addStep_fracSum", "frac_range", "pair_conserves", "pair_same_well")], rule="transfer/distribute/dispense histories with shared component names; exact amounts ledger")
+                   "removeStep_frac", "removeStep_amount", "addStep_fracSum", "frac_range", "pair_conserves", "pair_same_well",
+                   "history_normalised", "history_ideal_mixture")]
+                  + ["Robotools.Amt." + t for t in ("mixed_removeStep", "mixed_addStep", "take_amt", "put_amt", "ablock_pair", "compile_ablock")], rule="transfer/distribute/dispense histories with shared component names; exact amounts ledger")
 register("C06", run_C06, module="Robotools.Props.C06",
          theorems=["Robotools.C06.partition_spec", "Robotools.C06.partition_zero", "Robotools.C06.multi_disp_fits",
                    "Robotools.C06.multi_disp_unchanged", "Robotools.C06.source_partition_spec",
